@@ -269,6 +269,89 @@ def rule_quotes(ctx, rep):
         r.ok("no StringType-dependent quoting found", "plc2plc/src/renderer.rs")
 
 
+def rule_paren(ctx, rep):
+    r = rep.rule("R-C10-paren", "binary and comparison expressions are always parenthesised: in visit_binary_expr / visit_compare_expr every path that "
+                                "returns Ok writes `(` before the operands and `)` after them (the mechanism that makes re-association impossible)", floor=2)
+    from vlib.mir import explore
+    ov = renderer_overrides(ctx)
+    for m in ("visit_binary_expr", "visit_compare_expr"):
+        b = ov.get(m)
+        if b is None:
+            r.finding(m + "|missing", "plc2plc/src/renderer.rs", "the renderer has no %s override" % m)
+            continue
+
+        def step(st, bb, b=b):
+            o, c, err = st
+            call = b.call_at(bb)
+            if call is not None:
+                if (call.callee or "").endswith(("LibraryRenderer::write_ws", "LibraryRenderer::write")) and len(call.args) > 1:
+                    v = b.const_str(call.args[1])
+                    if v == "(":
+                        o = min(o + 1, 2)
+                    elif v == ")":
+                        c = min(c + 1, 2)
+                elif "from_residual" in (call.callee or "") and call.dest == [0, []]:
+                    err = True
+            return (o, c, err)
+        rets = explore(b, (0, 0, False), step)
+        finals = set()
+        for sts in rets.values():
+            finals |= sts
+        bad = sorted((o, c) for o, c, err in finals if not err and (o, c) != (1, 1))
+        where = "%s:%d" % (b.f["file"], b.f["line"])
+        if bad:
+            r.finding("%s|unparenthesised-path:%s" % (m, bad), where, "a path returns Ok having written %s opening and %s closing parentheses: an expression can be rendered without its grouping" % (bad[0][0], bad[0][1]))
+        else:
+            r.ok(m, where)
+
+
+def rule_uncond(ctx, rep):
+    r = rep.rule("R-C10-uncond", "a keyword-valued field of a node (a field whose type is a fieldless DSL enum, e.g. the qualifier of a VAR block) is rendered "
+                                 "unconditionally: the match on it lies on every path of the override that returns Ok", floor=8, floor_what="enum-valued fields matched by the renderer")
+    from vlib.mir import explore
+    T = Traversal(ctx, "visit")
+    ov = renderer_overrides(ctx)
+    fieldless = {aid for aid, a in ctx.facts.adts.items() if a["crate"] == "ironplc_dsl" and a["kind"] == "enum" and all(not v["fields"] for v in a["variants"])}
+    for m, b in sorted(ov.items()):
+        ty = T.method_type.get(m)
+        adt = ctx.facts.adts.get(ty or "")
+        if not adt or adt["kind"] != "struct":
+            continue
+        for fl in adt["variants"][0]["fields"]:
+            if fl["ty"] not in fieldless:
+                continue
+            # switches on the discriminant of node.<field>
+            sw = set()
+            for i in sorted(b.reachable(0)):
+                si = switch_info(b, i)
+                if si and si["kind"] == "disc" and si.get("adt") == fl["ty"] and si["subject"][0] == "place":
+                    rt = si["subject"][1]
+                    names = [x[2] for x in rt[1] if isinstance(x, list) and x[0] == "f"]
+                    if rt[0] == 2 and names == [fl["name"]]:
+                        sw.add(i)
+            if not sw:
+                continue
+
+            def step(st, bb, b=b, sw=sw):
+                seen, err = st
+                if bb in sw:
+                    seen = True
+                call = b.call_at(bb)
+                if call is not None and "from_residual" in (call.callee or "") and call.dest == [0, []]:
+                    err = True
+                return (seen, err)
+            rets = explore(b, (False, False), step)
+            finals = set()
+            for sts in rets.values():
+                finals |= sts
+            inst = "%s|%s.%s" % (m, ty.split("::")[-1], fl["name"])
+            where = "%s:%d" % (b.f["file"], b.f["line"])
+            if any(not seen and not err for seen, err in finals):
+                r.finding(inst + "|conditional", where, "a path returns Ok without passing the match on `%s`: for some nodes this keyword is silently not written" % fl["name"])
+            else:
+                r.ok(inst, where)
+
+
 def run(ctx, rep):
     rep.not_decided += ["parse(render(L)) == L itself (value-level)", "numeric formatting (1.0 printed as 1, durations truncated to whole ms)",
                         "separator/bracket completeness per production (design rule R-C10-sep not implemented: needs per-production token multisets)",
@@ -277,3 +360,5 @@ def run(ctx, rep):
     rule_fields(ctx, rep)
     rule_vocab(ctx, rep)
     rule_quotes(ctx, rep)
+    rule_paren(ctx, rep)
+    rule_uncond(ctx, rep)
